@@ -77,7 +77,7 @@ func newBuilder(kind string) *builder {
 		b.nh = &aftpb.Afts_NextHopKey{}
 		b.stepFn = func(r *rand.Rand) {
 			log := func(f string, a ...any) { b.calls = append(b.calls, fmt.Sprintf(f, a...)) }
-			lohi := func() (uint64, uint64) { return uint64(1 + r.Intn(9)), uint64(r.Intn(3)) }
+			lohi := func() (uint64, uint64) { return elecWord(r, true), elecWord(r, false) }
 			_ = lohi
 			switch r.Intn(14) {
 			case 0:
@@ -243,7 +243,7 @@ func (b *builder) step(r *rand.Rand) { b.stepFn(r) }
 
 func stepV4[T v4B[T]](b *builder, x T, r *rand.Rand) {
 	log := func(f string, a ...any) { b.calls = append(b.calls, fmt.Sprintf(f, a...)) }
-	lohi := func() (uint64, uint64) { return uint64(1 + r.Intn(9)), uint64(r.Intn(3)) }
+	lohi := func() (uint64, uint64) { return elecWord(r, true), elecWord(r, false) }
 	_ = lohi
 	switch r.Intn(6) {
 	case 0:
@@ -282,7 +282,7 @@ func stepV4[T v4B[T]](b *builder, x T, r *rand.Rand) {
 
 func stepV6[T v4B[T]](b *builder, x T, r *rand.Rand) {
 	log := func(f string, a ...any) { b.calls = append(b.calls, fmt.Sprintf(f, a...)) }
-	lohi := func() (uint64, uint64) { return uint64(1 + r.Intn(9)), uint64(r.Intn(3)) }
+	lohi := func() (uint64, uint64) { return elecWord(r, true), elecWord(r, false) }
 	_ = lohi
 	switch r.Intn(6) {
 	case 0:
@@ -321,7 +321,7 @@ func stepV6[T v4B[T]](b *builder, x T, r *rand.Rand) {
 
 func stepMPLS[T mplsB[T]](b *builder, x T, r *rand.Rand) {
 	log := func(f string, a ...any) { b.calls = append(b.calls, fmt.Sprintf(f, a...)) }
-	lohi := func() (uint64, uint64) { return uint64(1 + r.Intn(9)), uint64(r.Intn(3)) }
+	lohi := func() (uint64, uint64) { return elecWord(r, true), elecWord(r, false) }
 	_ = lohi
 	switch r.Intn(5) {
 	case 0:
@@ -360,7 +360,7 @@ func stepMPLS[T mplsB[T]](b *builder, x T, r *rand.Rand) {
 
 func stepNHG[T nhgB[T]](b *builder, x T, r *rand.Rand) {
 	log := func(f string, a ...any) { b.calls = append(b.calls, fmt.Sprintf(f, a...)) }
-	lohi := func() (uint64, uint64) { return uint64(1 + r.Intn(9)), uint64(r.Intn(3)) }
+	lohi := func() (uint64, uint64) { return elecWord(r, true), elecWord(r, false) }
 	_ = lohi
 	switch r.Intn(5) {
 	case 0:
@@ -598,7 +598,7 @@ func clientProgram(run *ev.Run, caseID string, r *rand.Rand, elected bool) {
 		for s := 0; s < steps; s++ {
 			switch x := r.Intn(10); {
 			case x < 2 && elected:
-				lo, hi := uint64(1+r.Intn(50)), uint64(r.Intn(3))
+				lo, hi := uint64(1+r.Intn(50)), []uint64{0, 1, 2, ^uint64(0)}[r.Intn(4)]
 				h, hn := pickHandle()
 				h.upd(lo, hi)
 				cur = &spb.Uint128{Low: lo, High: hi}
@@ -690,4 +690,20 @@ func clientProgram(run *ev.Run, caseID string, r *rand.Rand, elected bool) {
 	run.Eval(1)
 	run.Count("client_operations", int64(len(want)))
 	run.Distinct("client" + strings.Join(trace, ";") + fmt.Sprint(len(want)))
+}
+
+// elecWord draws one 64-bit half of an election id set on an entry builder: small
+// values, explicit zero (both halves zero = an entry that explicitly carries the
+// all-zero id, e.g. for a negative test) and the all-ones word.
+func elecWord(r *rand.Rand, low bool) uint64 {
+	switch r.Intn(8) {
+	case 0, 1:
+		return 0
+	case 2:
+		return ^uint64(0)
+	}
+	if low {
+		return uint64(1 + r.Intn(9))
+	}
+	return uint64(r.Intn(3))
 }
